@@ -51,7 +51,8 @@ Inputs ==
             faults : {F \in SUBSET FaultSites : Cardinality(F) <= MaxFaults}] :
        /\ (i.yield_at # "none" => i.sched)
        /\ (i.maint => i.graph)
-       /\ ~(i.dry /\ i.kill)
+       \* (dry /\ kill is a legal combination: the kill switch removes T4, so the dry run's early return after T4 never
+       \* happens and the turn goes on to its end without T3, GEL updates, apply or reflection)
        /\ (i.dry => i.yield_at \notin {"T3"})
        /\ (i.kill => i.yield_at \notin {"T4", "Apply"})
        /\ (i.refl_out # "ok" => (i.allow_refl /\ i.plan_refl /\ ~i.dry))}
@@ -153,6 +154,7 @@ ExpectedLog(i, stashIn) ==
         p3 == p2 \o <<"t3", "t3_plan", "t3_dialogue">>
     IN IF Yd(i, "T1") THEN <<"t1">> \o yk
        ELSE IF Yd(i, "T2") THEN <<"t1", "t2">> \o yk
+       ELSE IF i.dry /\ i.kill THEN p2 \o tail
        ELSE IF i.dry THEN p2 \o <<"t4">>
        ELSE IF Yd(i, "T3") THEN p2 \o yk
        ELSE IF i.kill THEN p3 \o tail
